@@ -1,7 +1,7 @@
 package main
 
 // formops: syntactic translator (go/ast) of the substitution / free-name / copy code of
-// /repo/process/form.go into the small IR of coq/theories/FormIR.v.  Output: gen/FormOps.v.
+// /repo/process/form.go (and of Name.Initialized / Equal / Substitute of name.go) into the small IR of coq/theories/FormIR.v.  Output: gen/FormOps.v.
 // For every struct type named *Form: its field list, its constructor functions (New*), the body of
 // its Substitute method and of its FreeNames method; the four list helpers (appendIfNotSelf,
 // removeBoundName, nameExists, mergeTwoNamesList) as small list programs; the case list of
@@ -783,6 +783,228 @@ func (t *foTr) copyCase(ss []ast.Stmt, strct, recv string) string {
 	return ""
 }
 
+
+// ---------------------------------------------------------------------------------------------
+// name.go: (*Name).Initialized, Equal, Substitute
+// ---------------------------------------------------------------------------------------------
+
+func (t *foTr) nRef(e ast.Expr, recv string, params []string) (string, bool) {
+	id, ok := e.(*ast.Ident)
+	if !ok {
+		return "", false
+	}
+	if id.Name == recv {
+		return "RSelf", true
+	}
+	for k, p := range params {
+		if p == id.Name {
+			return fmt.Sprintf("(RParam %d)", k), true
+		}
+	}
+	return "", false
+}
+
+// x.F -> (ref of x, F)
+func (t *foTr) nSel(e ast.Expr, recv string, params []string) (string, string, bool) {
+	se, ok := e.(*ast.SelectorExpr)
+	if !ok {
+		return "", "", false
+	}
+	r, ok := t.nRef(se.X, recv, params)
+	return r, se.Sel.Name, ok
+}
+
+// x.Initialized() -> ref of x
+func (t *foTr) nInitCall(e ast.Expr, recv string, params []string) (string, bool) {
+	c, ok := e.(*ast.CallExpr)
+	if !ok || len(c.Args) != 0 {
+		return "", false
+	}
+	r, f, ok := t.nSel(c.Fun, recv, params)
+	return r, ok && f == "Initialized"
+}
+
+func (t *foTr) nBexp(e ast.Expr, recv string, params []string) string {
+	switch x := e.(type) {
+	case *ast.ParenExpr:
+		return t.nBexp(x.X, recv, params)
+	case *ast.UnaryExpr:
+		if x.Op == token.NOT {
+			return "(NBNot " + t.nBexp(x.X, recv, params) + ")"
+		}
+	case *ast.CallExpr:
+		if r, ok := t.nInitCall(x, recv, params); ok {
+			return "(NBInit " + r + ")"
+		}
+	case *ast.BinaryExpr:
+		switch x.Op {
+		case token.LAND:
+			return "(NBAnd " + t.nBexp(x.X, recv, params) + " " + t.nBexp(x.Y, recv, params) + ")"
+		case token.LOR:
+			return "(NBOr " + t.nBexp(x.X, recv, params) + " " + t.nBexp(x.Y, recv, params) + ")"
+		case token.EQL, token.NEQ:
+			if a, ok := t.nInitCall(x.X, recv, params); ok && x.Op == token.EQL {
+				if b, ok := t.nInitCall(x.Y, recv, params); ok {
+					return "(NBInitEq " + a + " " + b + ")"
+				}
+			}
+			if a, f, ok := t.nSel(x.X, recv, params); ok {
+				if b, g, ok := t.nSel(x.Y, recv, params); ok && f == g && x.Op == token.EQL {
+					switch f {
+					case "Channel":
+						return "(NBChanEq " + a + " " + b + ")"
+					case "Ident":
+						return "(NBIdentEq " + a + " " + b + ")"
+					}
+				}
+				if f == "Channel" && isIdent(x.Y, "nil") && x.Op == token.NEQ {
+					return "(NBChanNotNil " + a + ")"
+				}
+				if lit, ok := x.Y.(*ast.BasicLit); ok && f == "Ident" && lit.Value == "\"\"" && x.Op == token.NEQ {
+					return "(NBIdentNonEmpty " + a + ")"
+				}
+			}
+		}
+	}
+	t.fail(e, "condition outside the fragment (x.Initialized() | x.Channel != nil | a.Channel == b.Channel | a.Ident == b.Ident | x.Ident != \"\" | a.Initialized() == b.Initialized() | ! && ||)")
+	return ""
+}
+
+func (t *foTr) nRet(ss []ast.Stmt, recv string, params []string) string {
+	if len(ss) == 0 {
+		t.fail(nil, "function can end without a return")
+	}
+	switch x := ss[0].(type) {
+	case *ast.ReturnStmt:
+		if len(x.Results) == 1 && len(ss) == 1 {
+			return "(NRet " + t.nBexp(x.Results[0], recv, params) + ")"
+		}
+	case *ast.IfStmt:
+		if x.Init == nil && x.Else == nil {
+			return "(NRIf " + t.nBexp(x.Cond, recv, params) + " " + t.nRet(x.Body.List, recv, params) + " " + t.nRet(ss[1:], recv, params) + ")"
+		}
+	}
+	t.fail(ss[0], "statement outside the fragment (if c { … return e } | final return e)")
+	return ""
+}
+
+func (t *foTr) nStmts(ss []ast.Stmt, recv string, params []string) string {
+	var out []string
+	for _, s := range ss {
+		out = append(out, t.nStmt(s, recv, params))
+	}
+	return coqList(out)
+}
+
+func (t *foTr) nStmt(s ast.Stmt, recv string, params []string) string {
+	switch x := s.(type) {
+	case *ast.AssignStmt:
+		if x.Tok == token.ASSIGN && len(x.Lhs) == 1 && len(x.Rhs) == 1 {
+			a, f, ok1 := t.nSel(x.Lhs[0], recv, params)
+			b, g, ok2 := t.nSel(x.Rhs[0], recv, params)
+			if ok1 && ok2 && a == "RSelf" && b != "RSelf" && f == g {
+				return "NSet " + coqString(f) + " " + b
+			}
+		}
+	case *ast.IfStmt:
+		if x.Init == nil {
+			c := t.nBexp(x.Cond, recv, params)
+			th := t.nStmts(x.Body.List, recv, params)
+			el := "[]"
+			switch e := x.Else.(type) {
+			case nil:
+			case *ast.BlockStmt:
+				el = t.nStmts(e.List, recv, params)
+			case *ast.IfStmt:
+				el = "[" + t.nStmt(e, recv, params) + "]"
+			default:
+				t.fail(s, "unrecognised else branch")
+			}
+			return "NIf " + c + " " + th + " " + el
+		}
+	}
+	t.fail(s, "statement outside the fragment (n.F = x.F | if c {…} else {…})")
+	return ""
+}
+
+func (t *foTr) nameOps(repo string) {
+	path := repo + "/process/name.go"
+	f, err := parser.ParseFile(t.fset, path, nil, 0)
+	if err != nil {
+		fmt.Fprintln(os.Stderr, "formops:", err)
+		os.Exit(1)
+	}
+	var fields []string
+	got := map[string]string{}
+	for _, d := range f.Decls {
+		switch x := d.(type) {
+		case *ast.GenDecl:
+			for _, sp := range x.Specs {
+				if ts, ok := sp.(*ast.TypeSpec); ok && ts.Name.Name == "Name" {
+					st, ok := ts.Type.(*ast.StructType)
+					if !ok {
+						t.where = "type Name"
+						t.fail(ts, "not a struct")
+					}
+					for _, fd := range st.Fields.List {
+						for _, n := range fd.Names {
+							fields = append(fields, "("+coqString(n.Name)+", "+coqString(t.src(fd.Type))+")")
+						}
+					}
+				}
+			}
+		case *ast.FuncDecl:
+			if x.Recv == nil || len(x.Recv.List) != 1 || len(x.Recv.List[0].Names) != 1 || t.src(x.Recv.List[0].Type) != "*Name" {
+				continue
+			}
+			recv := x.Recv.List[0].Names[0].Name
+			var params []string
+			for _, p := range x.Type.Params.List {
+				for _, n := range p.Names {
+					params = append(params, n.Name)
+				}
+				if t.src(p.Type) != "Name" {
+					params = append(params, "") // placeholder: not usable as a name reference
+				}
+			}
+			t.where = "(*Name)." + x.Name.Name
+			switch x.Name.Name {
+			case "Initialized":
+				if len(params) != 0 || len(x.Body.List) != 1 {
+					t.fail(x.Body, "not a single return")
+				}
+				r, ok := x.Body.List[0].(*ast.ReturnStmt)
+				if !ok || len(r.Results) != 1 {
+					t.fail(x.Body, "not a single return")
+				}
+				got["init"] = t.nBexp(r.Results[0], recv, params)
+			case "Equal":
+				if len(params) != 1 {
+					t.fail(x.Type, "signature is not Equal(Name) bool")
+				}
+				got["equal"] = t.nRet(x.Body.List, recv, params)
+			case "Substitute":
+				if len(params) != 2 || x.Type.Results != nil {
+					t.fail(x.Type, "signature is not Substitute(old, new Name)")
+				}
+				got["subst"] = t.nStmts(x.Body.List, recv, params)
+			}
+		}
+	}
+	t.where = "name.go"
+	if got["init"] == "" || got["equal"] == "" || got["subst"] == "" || len(fields) == 0 {
+		t.fail(nil, "type Name / Initialized / Equal / Substitute not found")
+	}
+	fmt.Println()
+	fmt.Println("(* /repo/process/name.go *)")
+	fmt.Println("Definition name_fields : list (string * string) := " + coqList(fields) + ".")
+	fmt.Println()
+	fmt.Println("Definition name_ops : name_table := mkNameTable")
+	fmt.Println("  " + got["init"])
+	fmt.Println("  " + got["equal"])
+	fmt.Println("  " + got["subst"] + ".")
+}
+
 // ---------------------------------------------------------------------------------------------
 
 func dumpFormOps(repo string) {
@@ -951,4 +1173,15 @@ func dumpFormOps(repo string) {
 	fmt.Println("Definition table : table := mkTable structs ctors subst_methods free_methods helpers has_cont copy_cases.")
 }
 
-func init() { register("formops", func(a []string) { dumpFormOps(repoRoot()) }) }
+// nameops: the same for (*Name).Initialized / Equal / Substitute of /repo/process/name.go -> gen/NameOps.v
+func dumpNameOps(repo string) {
+	t := &foTr{fset: token.NewFileSet(), structs: map[string][][2]string{}}
+	fmt.Println("(* GENERATED by `probe nameops` from /repo/process/name.go (go/ast). Do not edit. *)")
+	fmt.Println("Require Import Grits.Base Grits.NameIR.")
+	t.nameOps(repo)
+}
+
+func init() {
+	register("formops", func(a []string) { dumpFormOps(repoRoot()) })
+	register("nameops", func(a []string) { dumpNameOps(repoRoot()) })
+}
